@@ -968,6 +968,38 @@ def run_huge_realloc(ck, oom, pools):
                           {"engine": "E-REAL", "harness": "harness/c18/pools.cpp", "script": lines, "observed": v[:5], "runs": 2, "expect": "no-violation"})
 
 
+def run_backref_exhaustion(ck, exe):
+    """the back-reference table (kept in memory the library asks the OS for itself, outside the pools) cannot grow: with its 4 initial leaves full
+    (8160 live large objects), the OS refuses the library's own requests while the pool's raw callback still delivers: the allocation that needs
+    the new leaf must fail cleanly — every live block keeps its size / owner / contents — and requests succeed again afterwards"""
+    bad, runs = [], 0
+    for (nlive, osz) in ((8150, 8200), (8157, 9000), (8140, 20000)):
+        lines = ["P 1", "M pool 1 0 0 0 0 1"]
+        lines += ["0 pmalloc 1 %d %d" % (i, osz) for i in range(nlive)]
+        lines += ["P 1", "M osfail 1 1"]
+        lines += ["0 pmalloc 1 %d %d" % (nlive + i, osz) for i in range(40)]
+        lines += ["0 pamalloc 1 %d %d 12" % (nlive + 40, osz), "0 pmalloc 1 %d 100" % (nlive + 41)]
+        lines += ["P 1", "M osfail 1 0", "0 !pmalloc 1 %d %d" % (nlive + 50, osz), "0 !pmalloc 1 %d 300000" % (nlive + 51), "0 pmsize 1 0", "0 pmsize 1 %d" % (nlive // 2),
+                  "0 pfree 1 0", "0 pfree 1 %d" % (nlive // 2)]
+        v, ol = run_lines(exe, lines, timeout=600)
+        runs += 1
+        d = [l for l in ol if l.startswith("done")]
+        ck.count(len(lines), ("backref-exhaustion", nlive, osz, bool(d and "nulls=0" not in d[0])))
+        ck.extra.setdefault("backref_exhaustion", []).append({"live": nlive, "size": osz, "result": d[0] if d else "-"})
+        if v:
+            bad.append(("back-reference table cannot grow (%d live objects of %d bytes, OS refuses the library's own requests)" % (nlive, osz), lines, v))
+            break
+    ck.traces_validated += runs
+    ck.oblige("monitor:back-reference table full and the OS refuses its growth while the pool can still deliver: the request fails cleanly, every live "
+              "block keeps size / owner / contents, later requests succeed", "correspondence", not bad, [(n, v[:2]) for n, _, v in bad][:2])
+    for name, lines, v in bad[:1]:
+        kind = v[0].split()[1]
+        head = [l for l in lines if not (l.startswith("0 pmalloc 1 ") and int(l.split()[3]) < 8000)]
+        ck.counterexample("pool:backref-exhaustion:%s" % kind, "%s: %s" % (name, v[0]),
+                          {"engine": "E-REAL", "harness": "harness/c18/pools.cpp", "script": lines, "script_without_the_first_8000_allocations": head[:60], "observed": v[:5],
+                           "runs": 2, "expect": "no-violation"})
+
+
 REMAP_KEY = "remap-size-wraps"
 CXX_KEY = "cxx-allocator-n-times-sizeof-wraps"
 
@@ -1026,6 +1058,7 @@ def run(ck):
     reset_defect = run_reset_race(ck, pools)
     run_pools(ck, pools, reset_defect)
     run_first_touch(ck, pools)
+    run_backref_exhaustion(ck, pools)
     run_oom(ck, oom, c)
     run_first_touch_os(ck, oom)
     run_huge_realloc(ck, oom, pools)
